@@ -218,6 +218,7 @@ static int cur_read_fd = -1;
 static int scribble_mode; /* 0 none, else pattern id */
 static unsigned int scribble_seed = 12345;
 static int ws_compression_level = 0;
+static int startup_inject = 0;
 
 static void (*sigterm_handler)(int);
 static int pending_eintr;
@@ -434,7 +435,7 @@ int __wrap_setsockopt(int fd, int level, int optname, const void *optval, sockle
 		errno = ENOTSOCK;
 		return -1;
 	}
-	if (f->kind == K_STREAM) {
+	if (f->kind == K_STREAM || startup_inject) {
 		int e = inject_fire("setsockopt");
 		if (e) {
 			errno = e;
@@ -451,7 +452,7 @@ static int do_fcntl(int fd, int cmd, long arg)
 	}
 	struct simfd *f = live("fcntl", fd, K_NONE);
 	if (!f) return -1;
-	if (f->kind == K_STREAM) {
+	if (f->kind == K_STREAM || startup_inject) {
 		int e = inject_fire("fcntl");
 		if (e) {
 			errno = e;
@@ -1597,6 +1598,24 @@ int __wrap_epoll_wait(int epfd, struct epoll_event *events, int maxevents, int t
 int main(int argc, char **argv)
 {
 	signal(SIGPIPE, SIG_IGN);
+	/* failures of start-up calls are scripted through the environment: SIMK_STARTUP_INJECT="bind:2:98,listen:1:12" */
+	const char *si = getenv("SIMK_STARTUP_INJECT");
+	startup_inject = si != NULL;
+	while (si && *si) {
+		char name[32];
+		long nth = 0;
+		int err = 0;
+		if (sscanf(si, "%31[^:]:%ld:%d", name, &nth, &err) == 3) {
+			for (struct inject *i = injects; i->name; i++) {
+				if (strcmp(i->name, name) == 0) {
+					i->nth = nth;
+					i->err = err;
+				}
+			}
+		}
+		si = strchr(si, ',');
+		if (si) si++;
+	}
 	in_daemon = 1;
 	int ret = cjet_main(argc, argv);
 	in_daemon = 0;
